@@ -165,7 +165,7 @@ Section Valid.
       injection H as <-.
       specialize (IH fds fis rest (fun x Hx => Hin x (or_intror Hx)) Hann E2).
       destruct om as [m|]; [|exact IH]. cbn [forallb]. rewrite IH, andb_true_r.
-      unfold field_ann_ok in Hfi. cbn [fst snd] in Hfi. apply andb_true_iff in Hfi as [Hname _].
+      unfold field_ann_ok in Hfi. cbn [fst snd] in Hfi. apply andb_true_iff in Hfi as [Hfi _]. apply andb_true_iff in Hfi as [Hname _].
       unfold jw_field in E1. destruct ov as [v|].
       + destruct (negb (field_present ps all fd)); [discriminate|].
         destruct (rec (f_ty fd) (eval_args ps all (f_args fd)) v) as [j|] eqn:Er; [|discriminate]. cbn [bind_opt] in E1.
